@@ -501,6 +501,11 @@ std::string handle_realtime(const JV &req) {
         g_ctx = nullptr;
         const std::int64_t t_start = wall_us();
         window_json = "[" + jtime(ex.view().start_time()) + "," + jtime(ex.view().end_time()) + "]";
+        if (cfg.bool_or("stop_before_run", false)) {
+            // a stop request that arrives before run() has begun (another thread racing the start) must end that run
+            ex.view().request_stop();
+            log("[\"ctl\",\"stop_requested_before_run\"]");
+        }
         std::thread runner([&] {
             g_ctx = &ctx;
             try { ex.view().run(); } catch (const std::exception &e) { run_error = err_json("run", e); }
